@@ -186,6 +186,15 @@ def all_hand_jobs(model, tier):
     # ---- C14: the same contracts, re-verified for a big-endian host
     be = utils_jobs('be') + can_jobs(model, 'be') + vsspad_jobs(model, 'be')
     be += G.all_generated_jobs(model, 'be', formats=(['tscf', 'can', 'vss'] if tier == 'quick' else None))
+    # the VSS codec is the other place that touches host words: re-verify it for a big-endian host
+    vss_be = vss_jobs(model, tier, 'be')
+    if tier == 'quick':
+        keep = ('Avtp_Vss_CalcVssPathLength/iface', 'Avtp_Vss_SetVssPath/iface', 'Avtp_Vss_GetVssPath/iface', 'at-0x03', 'at-0x06', 'at-0x09', 'at-0x0A', 'at-0x82',
+                '/VSS_INT16', '/VSS_UINT64', '/VSS_FLOAT', '/VSS_DOUBLE', '/VSS_UINT16_ARRAY')
+        vss_be = [j for j in vss_be if any(j.name.endswith(k) for k in keep) and 'full-range' not in j.name]
+    else:
+        vss_be = [j for j in vss_be if 'full-range' not in j.name]
+    be += vss_be
     if tier != 'quick':
         be += G.legacy_jobs(model, 'be')
     jobs += _retag(be, 'C14')
